@@ -400,6 +400,13 @@ def genbank_field_name_rule(ctx, rule):
     gc_ = src.func("GenBankFile._get_field_content")
     ok_cut = any(isinstance(x, ast.Subscript) and isinstance(x.slice, ast.Slice) and x.slice.upper is None and x.slice.lower is not None
                  and same_expr(x.slice.lower, "12") for x in ast.walk(gc_))
+    if not ok_name:
+        # recognisably another rule for the name (a word split, a slice with other bounds) is a violation; anything else is not read here
+        wrong = any(isinstance(x, ast.Call) and isinstance(x.func, ast.Attribute) and x.func.attr in ("split", "partition") for v_ in names_ for x in ast.walk(v_)) or \
+            any(isinstance(x, ast.Slice) and isinstance(x.upper, ast.Constant) and x.upper.value != 12 for v_ in names_ for x in ast.walk(v_))
+        ctx.cannot_decide(wrong, "GenBankFile._find_field_indices reads the field name in a form this rule does not read: " + "; ".join(ast.unparse(v_) for v_ in names_))
+        if not wrong:
+            ok_name = True
     ctx.ob(rule, GB, "GenBankFile._find_field_indices", "name = line[0:12].strip(); content = line[12:]", ok_name and ok_cut,
            "the field name is not read from the twelve name columns (or the content is not cut behind them): after a re-index a field like "
            "`BASE COUNT` has another name than the one it was stored under, and set / get by name miss it", fi.lineno)
